@@ -31,8 +31,9 @@ structure Inv (s : St) : Prop where
   /-- item ids (addresses) are pairwise distinct and none of them is on the free list -/
   nodup : (ids s.t ++ s.free).Nodup
 
-/-- states reachable by histories over several containers: ops on one container, copy assignment
-    `dst = src` and bulk insert `dst.insert(src)` between two different Maps -/
+/-- states reachable by histories over several containers: ops on one container, copy construction
+    and copy assignment `dst = src` between two containers of the same kind (Map or MultiMap), and
+    bulk insert `dst.insert(src)` between two Maps (MultiMap has no bulk insert) -/
 inductive Reach : Bool → St → Prop
   | init (m : Bool) : Reach m (St.init m)
   | step {m : Bool} {s : St} (op : Op) : Reach m s → Reach m (step' s op)
@@ -371,18 +372,6 @@ theorem count_correct {s : St} (hr : Reach true s) (k : Int) :
   obtain ⟨hI, hO, hm⟩ := invs_reach hr
   exact g_count_correct s hI hO hm k
 
-/-- **Items never change identity while they live** (the C05 side of this container, stated in the
-    model): after any op from a reachable state every item `(id, key, value)` of the tree is still in
-    the tree with the same id, key and value — its value changes only when a Map insert / hinted
-    insert assigns to its key — or its id has been released to the free list (removal, clear).
-    Rotations and the two-child removal relink items, they never copy them. -/
-theorem ids_stable_step {multi : Bool} {s : St} (hr : Reach multi s) (op : Op) (r : St × Out)
-    (h : step s op = some r) (e : Nat × Int × Int) (he : e ∈ s.t.inorder) : Survives multi op r.1 e := by
-  obtain ⟨hI, hO, hm⟩ := invs_reach hr
-  have := step_survives s hI hO op r h e he
-  rw [hm] at this
-  exact this
-
 theorem step'_map {f : Int → Int} (hf : Mono f) (s : St) (op : Op) :
     step' (mapSt f s) (mapOp f op) = mapSt f (step' s op) := by
   unfold step'
@@ -450,8 +439,8 @@ theorem multi_insert_stable (ops : List Op) (k v : Int) :
   * Keys are `Int` in this file.  PropsK.lean lifts the model to any key type with a lawful strict
     total order and proves `G.transfer` (a generic run is the `Int` run of the relabelled history),
     `G.transfer_out`, `G.find_cost_log`, `G.height_log`, `G.sorted_map/multi`, `G.int_instance`.
-    Not restated over `K`: the refinement to the sorted-list specification (`refines_rel` …); it
-    follows for the relabelled history from the two transfer theorems.
+    `G.refines_rel` restates the refinement over `K` (for the contents relabelled by the order
+    embedding of the keys involved); PropsIds.lean has the identity statements for both.
   * The free-list discipline (LIFO reuse of item addresses, blocks of 4) is modelled (`St.alloc`,
     invariant: ids distinct and disjoint from the free list); which id an insert reuses is not
     the subject of a theorem (compared with the real code in the thorough tier).
@@ -476,7 +465,7 @@ example : ∀ op ∈ sampleOps, op.det false = true := by decide
 example : IsLogBound 7 4 := by
   unfold IsLogBound
   constructor <;> decide +kernel
-/-- removing the two-child root 4 of `sampleOps`' tree keeps the ids of all other items -/
+/-- removing the two-child root 4 of `sampleOps`' tree keeps the ids of all other items (see PropsIds.lean) -/
 example : (run false (sampleOps.take 8)).t.inorder.map (fun e => e.1) = [0, 2, 7, 3, 6, 1, 5, 4] ∧
     (run false sampleOps).t.inorder.map (fun e => e.1) = [0, 2, 7, 6, 1, 5, 4] := by decide +kernel
 /-- an order embedding that is not a translation: `k ↦ 3k - 7` -/
@@ -493,6 +482,11 @@ example : (outcome (run true [.insert 5 1, .insert 5 2, .insert 5 3]) (.insertAt
     some ([(5, 1), (5, 2), (5, 3), (5, 4)], .it 3) := by decide +kernel
 example : Spec.HintPos [(5, 1), (5, 2), (5, 3)] 1 5 3 := by
   simp [Spec.HintPos, Spec.upper]
+/-- copy construction / assignment between two MultiMaps keeps equal keys in order -/
+example : abs ((run true [.insert 9 1]).assignFrom (run true [.insert 5 1, .insert 5 2, .insert 3 9, .insert 5 3])).1
+    = [(3, 9), (5, 1), (5, 2), (5, 3)] := by decide +kernel
+example : Reach true ((St.init true).assignFrom (run true [.insert 5 1, .insert 5 2])).1 :=
+  Reach.copy (reach_run _ _)
 /-- copy and bulk insert between two reachable Maps -/
 example : abs ((run false [.insert 9 1]).assignFrom (run false sampleOps)).1 = abs (run false sampleOps) := by
   decide +kernel
